@@ -613,11 +613,11 @@ fn build_state(dir: &Path, name: &str, seed: u64, ironwood: bool, wal: bool, blo
     if migration {
         // an Orchard note reserved by the migration's proved preparation, and the migration itself
         let orch: Vec<u32> = lockable_notes(&st).into_iter().filter(|n| st.chain.notes[n].pool == Pool::Orchard && !st.locked.contains(n)).collect();
-        if let Some(n) = orch.first() {
-            let r = output_ref(&st.chain, *n);
-            wdb(&mut conn, net, seed).lock_outputs(&[r], LockOwner::new(MIG_TOKEN), BlockHeight::from(tip + 50)).expect("migration lock");
-            st.locked.push(*n);
-        }
+        let held: Vec<u32> = orch.iter().take(2).copied().collect();
+        assert!(!held.is_empty(), "the migration wallet holds an Orchard note to reserve");
+        let refs: Vec<OutputRef> = held.iter().map(|n| output_ref(&st.chain, *n)).collect();
+        wdb(&mut conn, net, seed).lock_outputs(&refs, LockOwner::new(MIG_TOKEN), BlockHeight::from(tip + 50)).expect("migration lock");
+        st.locked.extend(held);
         let ms = migration_state(base, 1, base + scan - 1);
         PoolMigrations::for_account(net, clock(), &mut conn, account).and_then(|mut m| m.replace_migration(&ms)).expect("persist migration");
         let back = PoolMigrations::for_account(net, clock(), &conn, account).and_then(|m| m.get_migration()).expect("read migration");
@@ -638,6 +638,10 @@ fn zat(v: u64) -> Zatoshis {
 /// depending on it), as the store persists it. `variant` 0: the preparation is proved (holds the note
 /// lock MIG_TOKEN), transfers signed; 1: preparation mined at `mined`, first transfer broadcast.
 fn migration_state(base: u32, variant: u8, mined: u32) -> MigrationState {
+    migration_state_with(base, variant, mined, MigrationStatus::InProgress)
+}
+
+fn migration_state_with(base: u32, variant: u8, mined: u32, status: MigrationStatus) -> MigrationState {
     let cv = [200_000u64, 100_000];
     let total: u64 = cv.iter().sum();
     let denominations = DenominationPlan::from_stored_parts(
@@ -691,7 +695,7 @@ fn migration_state(base: u32, variant: u8, mined: u32) -> MigrationState {
             None,
         ));
     }
-    MigrationState::from_parts(MigrationStatus::InProgress, denominations, preparation, txs, AnchorBucketInterval::ZIP_318, ReplanThreshold::DEFAULT)
+    MigrationState::from_parts(status, denominations, preparation, txs, AnchorBucketInterval::ZIP_318, ReplanThreshold::DEFAULT)
 }
 
 fn mig_ops(s: &State) -> Vec<OpDef> {
@@ -707,6 +711,22 @@ fn mig_ops(s: &State) -> Vec<OpDef> {
         )
     }));
     if s.has_migration {
+        // the migration in flight (its proved, never-broadcast transaction holds the reservation MIG_TOKEN on
+        // received-note rows) is persisted in a terminal status: the reservations are released and the record
+        // rewritten by one call
+        for (name, status) in [
+            ("mig_terminal_superseded", MigrationStatus::Superseded),
+            ("mig_terminal_cancelled", MigrationStatus::Cancelled),
+            ("mig_terminal_failed", MigrationStatus::Failed),
+        ] {
+            v.push(opdef(name, move |c, s| {
+                let st = migration_state_with(base, 1, mined, status);
+                cls(
+                    guarded(|| PoolMigrations::for_account(s.net, clock(), &mut *c, s.account).and_then(|mut m| m.replace_migration(&st))),
+                    |_| String::new(),
+                )
+            }));
+        }
         v.push(opdef("mig_update_tx", move |c, s| {
             let new_state = MigrationTxState::Mined { txid: TxId::from_bytes([0xA1; 32]), height: BlockHeight::from(mined) };
             cls(
@@ -1335,7 +1355,8 @@ fn main() {
     let weight = |op: &str| -> u64 {
         match op {
             "scan3@summary" => 12,
-            "truncate@summary" | "tip_up@summary" => 3,
+            "truncate@summary" | "tip_up@summary" | "mig_terminal_superseded@summary" => 3,
+            "mig_replace" | "mig_store_proved" | "mig_terminal_superseded" | "mig_terminal_cancelled" | "mig_terminal_failed" => 5,
             "scan12" => 50,
             "scan3" => 28,
             "scan1" => 20,
@@ -1346,7 +1367,7 @@ fn main() {
     };
     let mut all: Vec<(usize, String)> = vec![];
     let reader_ops = |s: &State| -> Vec<&'static str> {
-        if s.has_migration { vec![] } else if s.wal { vec!["scan3", "truncate", "tip_up"] } else { vec!["scan3", "truncate"] }
+        if s.has_migration { vec!["mig_terminal_superseded"] } else if s.wal { vec!["scan3", "truncate", "tip_up"] } else { vec!["scan3", "truncate"] }
     };
     // quick: operations other than scans / truncations / rewinds / locks / tip updates run on one of the
     // wallets A, B per run, chosen by the seed (every operation runs on at least one pre-state in every run)
